@@ -1,13 +1,149 @@
 /-
-  Driver.OpsC15 — protocol operations for property C15 (filled in by the C15 work package).
-  Contract: `handleC15 op` returns the parser for operation `op` or `none` if `op` is not one of
-  this property's operations.
+  Driver.OpsC15 — protocol operations for property C15.
+
+  c15iter <n> <cur0> <G> <H> g1 … gH
+      G generators of `FieldDataSequence.__iter__` over ONE source of n steps whose cursor initially is cur0;
+      history of `next(g)` calls.  → model=<g>:<event>:<calls>,…;<final cursor>   spec=<steps 0..n-1>
+      event: y<i> | raise | stop ; calls: letters r(eset) g(et) s(tep)
+  c15cmp <ignore> <force> <nRes> <curRes> <nRef> <curRef> <K> suite_0 … suite_{K-1}
+      suite = <status|none> <ntests> t…   = what `_compare_field_data` returns for the pair (i, i);
+      pairs (i, j) with i ≠ j or i ≥ K get a poison suite (status error), so a mis-paired step shows.
+      → hyp=<lengths ≥ 1, step suites consistent> model=<S|R>;<bool>;<status>;<tests>;<pairs>  spec=<bool>;<pairs>
+  c15file <kRes> <kRef> <single> <rest as c15cmp>  → model=<exit code>
+  c15ts <status|none> <ntests> t…  → model=<bool>,<status property>            (TestSuite finite behaviour)
+  c15merge <suite> <suite> → model=<bool>,<status property>,<raw status>
 -/
 import Driver.Proto
+import FcModel.Spec.C15
 namespace Fc.Drv
+open Fc
+
+def tstatusName : TStatus → String
+  | .passed => "passed"
+  | .failed => "failed"
+  | .error => "error"
+  | .skipped => "skipped"
+
+def parseTStatus (s : String) : Option TStatus :=
+  Gen.TestStatus.all.find? (fun x => tstatusName x == s)
+
+def pTStatus : P TStatus := do
+  let t ← tok
+  match parseTStatus t with
+  | some s => pure s
+  | none => failure
+
+def pOptTStatus : P (Option TStatus) := do
+  let t ← tok
+  if t == "none" then pure none else
+  match parseTStatus t with
+  | some s => pure (some s)
+  | none => failure
+
+def pSuite : P TSuite := do
+  let st ← pOptTStatus
+  let ts ← pList pTStatus
+  pure ⟨ts, st⟩
+
+def showOptT : Option TStatus → String
+  | none => "none"
+  | some s => tstatusName s
+
+def showTests (ts : List TStatus) : String :=
+  if ts.isEmpty then "-" else ",".intercalate (ts.map tstatusName)
+
+def showPairs15 (ps : List (Nat × Nat)) : String :=
+  if ps.isEmpty then "-" else ",".intercalate (ps.map (fun p => s!"{p.1}:{p.2}"))
+
+def showEv : Ev → String
+  | .yield i => s!"y{i}"
+  | .raise => "raise"
+  | .stop => "stop"
+
+def showCalls (cs : List Call) : String :=
+  String.join (cs.map (fun c => match c with | .reset => "r" | .get => "g" | .step => "s"))
+
+def opIter : P String := do
+  let n ← pNat
+  let cur ← pNat
+  let G ← pNat
+  let hist ← pList pNat
+  if !(hist.all (· < G)) then failure
+  let r := runHist ⟨n, cur⟩ (List.replicate G .fresh) hist
+  let evs := r.1.map (fun e => s!"{e.1}:{showEv e.2.1}:{showCalls e.2.2}")
+  let m := (if evs.isEmpty then "-" else ",".intercalate evs) ++ s!";{r.2.cur}"
+  let spec := if n == 0 then "-" else ",".intercalate ((Spec.steps n).map toString)
+  pure s!"hyp={showBool (n ≥ 1)} model={m} spec={spec}"
+
+structure CmpArgs where
+  o : SeqOpts
+  res : Src
+  ref : Src
+  suites : List TSuite
+
+def pCmpArgs : P CmpArgs := do
+  let ign ← pBool
+  let force ← pBool
+  let nRes ← pNat
+  let cRes ← pNat
+  let nRef ← pNat
+  let cRef ← pNat
+  let suites ← pList pSuite
+  pure ⟨⟨ign, force⟩, ⟨nRes, cRes⟩, ⟨nRef, cRef⟩, suites⟩
+
+def poison : TSuite := ⟨[.error], some .error⟩
+
+def stepFn (suites : List TSuite) (i j : Nat) : TSuite :=
+  if i == j then suites.getD i poison else poison
+
+def showSeqResult : SeqResult → String
+  | .raised => "R;0;-;-;-"
+  | .suite s c => s!"S;{showBool s.bool};{tstatusName s.statusProp};{showTests s.tests};{showPairs15 c}"
+
+def opCmp : P String := do
+  let a ← pCmpArgs
+  let step := stepFn a.suites
+  let r := compareSequences a.o a.res a.ref step
+  let m := min a.res.n a.ref.n
+  let hyp := a.res.n ≥ 1 && a.ref.n ≥ 1 && a.suites.length ≥ m && (a.suites.all Spec.consistent)
+  let spec := s!"{showBool (Spec.seqVerdict a.o a.res.n a.ref.n (fun i => (step i i).bool))};{showPairs15 (Spec.comparedSteps a.o a.res.n a.ref.n)}"
+  pure s!"hyp={showBool hyp} model={showSeqResult r} spec={if hyp then spec else "-"}"
+
+def pKind : P DataKind := do
+  let t ← tok
+  match t with
+  | "data" => pure .fieldData
+  | "seq" => pure .sequence
+  | "unknown" => pure .unknown
+  | _ => failure
+
+def opFile : P String := do
+  let kRes ← pKind
+  let kRef ← pKind
+  let single ← pBool
+  let a ← pCmpArgs
+  let r := compareSequences a.o a.res a.ref (stepFn a.suites)
+  let e := fileModeExit kRes kRef single r
+  let spec := if kRes ≠ kRef then "nonzero" else "-"
+  pure s!"hyp=1 model={e} spec={spec}"
+
+def opTs : P String := do
+  let s ← pSuite
+  pure s!"hyp=1 model={showBool s.bool},{tstatusName s.statusProp} spec=-"
+
+def opMerge : P String := do
+  let s1 ← pSuite
+  let s2 ← pSuite
+  let m := mergeSuites s1 s2
+  pure s!"hyp=1 model={showBool m.bool},{tstatusName m.statusProp},{showOptT m.status} spec={showBool (s1.bool && s2.bool)}"
 
 def handleC15 (op : String) : Option (P String) :=
   match op with
+  | "c15iter" => some opIter
+  | "c15cmp" => some opCmp
+  | "c15file" => some opFile
+  | "c15ts" => some opTs
+  | "c15merge" => some opMerge
   | _ => none
 
 end Fc.Drv
